@@ -9,6 +9,8 @@ package discovery
 // (whole and suffix ranges), PutObject (the manifest builder).
 
 import (
+	"bytes"
+	"context"
 	"encoding/xml"
 	"fmt"
 	"io"
@@ -18,15 +20,18 @@ import (
 	"strconv"
 	"strings"
 	"sync"
+
+	"github.com/kafscale/platform/addons/processors/sql-processor/internal/config"
+	"github.com/kafscale/platform/addons/processors/sql-processor/internal/decoder"
 )
 
 type VerifSeg struct {
 	Topic    string  `json:"topic"`
 	Part     int32   `json:"part"`
 	Base     int64   `json:"base"`
-	Offs     []int64 `json:"offs"` // record offsets
-	Tss      []int64 `json:"tss"`  // record timestamps
-	Footer   bool    `json:"footer"`
+	Offs     []int64 `json:"offs"`     // record offsets
+	Tss      []int64 `json:"tss"`      // record timestamps
+	Footer   bool    `json:"footer"`   // the time index builder has processed this segment (VerifBuildTimeIndex)
 	Complete bool    `json:"complete"` // .kfs ends with the footer magic
 	NoIndex  bool    `json:"no_index,omitempty"`
 }
@@ -75,6 +80,7 @@ type VerifS3 struct {
 	mu   sync.Mutex
 	objs map[string][]byte
 	Gets int
+	Puts int
 	srv  *httptest.Server
 }
 
@@ -102,14 +108,108 @@ func VerifNewS3(segs []VerifSeg) *VerifS3 {
 		if !sg.NoIndex {
 			f.objs[VerifKey(sg, ".index")] = []byte("idx")
 		}
-		if sg.Footer && len(sg.Offs) > 0 {
-			mnT, mxT := VerifMinMax(sg.Tss)
-			mnO, mxO := VerifMinMax(sg.Offs)
-			f.objs[VerifKey(sg, ".kfst")] = append([]byte("entries"), encodeTimeIndexFooter(mnT, mxT, mnO, mxO)...)
-		}
 	}
 	f.srv = httptest.NewServer(http.HandlerFunc(f.serve))
 	return f
+}
+
+// VerifDecoder returns each segment's records by segment key (the decoder packages are
+// verified elsewhere).
+type VerifDecoder struct{ recs map[string][]decoder.Record }
+
+func VerifNewDecoder(segs []VerifSeg) *VerifDecoder {
+	d := &VerifDecoder{recs: map[string][]decoder.Record{}}
+	for _, sg := range segs {
+		rs := make([]decoder.Record, len(sg.Offs))
+		for j := range sg.Offs {
+			rs[j] = decoder.Record{Topic: sg.Topic, Partition: sg.Part, Offset: sg.Offs[j], Timestamp: sg.Tss[j], Key: []byte("k"), Value: []byte("v")}
+		}
+		d.recs[VerifKey(sg, ".kfs")] = rs
+	}
+	return d
+}
+
+func (d *VerifDecoder) Decode(ctx context.Context, segmentKey, indexKey string, topic string, partition int32) ([]decoder.Record, error) {
+	rs, ok := d.recs[segmentKey]
+	if !ok {
+		return nil, fmt.Errorf("unknown segment %q", segmentKey)
+	}
+	return rs, nil
+}
+
+type verifFilterLister struct {
+	inner Lister
+	keep  map[string]bool
+}
+
+func (l verifFilterLister) ListCompleted(ctx context.Context) ([]SegmentRef, error) {
+	segs, err := l.inner.ListCompleted(ctx)
+	if err != nil {
+		return nil, err
+	}
+	var out []SegmentRef
+	for _, sg := range segs {
+		if l.keep[sg.SegmentKey] {
+			out = append(out, sg)
+		}
+	}
+	return out, nil
+}
+
+// VerifBuildTimeIndex writes the .kfst objects the way cmd/backfill does: the REAL
+// TimeIndexBuilder (scanSegment, encodeTimeIndexFooter, PutObject through the real S3
+// client) over a plain lister (manifest, cache and time index off), restricted to the
+// segments flagged Footer (segments completed after the last backfill run have no
+// index yet). Only the decoder is the harness's.
+func VerifBuildTimeIndex(ctx context.Context, cfg config.Config, segs []VerifSeg) error {
+	bcfg := cfg
+	bcfg.Manifest.Enabled = false
+	bcfg.TimeIndex.Enabled = false
+	bcfg.DiscoveryCache.TTLSeconds = 0
+	base, err := New(bcfg)
+	if err != nil {
+		return err
+	}
+	keep := map[string]bool{}
+	for _, sg := range segs {
+		if sg.Footer {
+			keep[VerifKey(sg, ".kfs")] = true
+		}
+	}
+	client, err := newS3Client(cfg)
+	if err != nil {
+		return err
+	}
+	b := newTimeIndexBuilder(client, cfg.S3.Bucket, cfg.TimeIndex.KeySuffix, cfg.TimeIndex.BuildMaxSegments, cfg.TimeIndex.BuildMaxBytes,
+		verifFilterLister{base, keep}, VerifNewDecoder(segs))
+	return b.Build(ctx)
+}
+
+// verifUnchunk decodes an aws-chunked request body (the SDK may stream PutObject bodies
+// with trailing checksums); other bodies are returned unchanged.
+func verifUnchunk(r *http.Request, body []byte) []byte {
+	if !strings.Contains(r.Header.Get("Content-Encoding"), "aws-chunked") && !strings.HasPrefix(r.Header.Get("X-Amz-Content-Sha256"), "STREAMING") {
+		return body
+	}
+	var out []byte
+	for len(body) > 0 {
+		nl := bytes.Index(body, []byte("\r\n"))
+		if nl < 0 {
+			break
+		}
+		head := string(body[:nl])
+		if i := strings.IndexByte(head, ';'); i >= 0 {
+			head = head[:i]
+		}
+		n, err := strconv.ParseInt(strings.TrimSpace(head), 16, 64)
+		if err != nil || n == 0 || int(n) > len(body)-nl-2 {
+			break
+		}
+		out = append(out, body[nl+2:nl+2+int(n)]...)
+		body = body[nl+2+int(n):]
+		body = bytes.TrimPrefix(body, []byte("\r\n"))
+	}
+	return out
 }
 
 type verifListResult struct {
@@ -169,7 +269,8 @@ func (f *VerifS3) serve(w http.ResponseWriter, r *http.Request) {
 	}
 	if r.Method == http.MethodPut {
 		body, _ := io.ReadAll(r.Body)
-		f.objs[parts[1]] = body
+		f.objs[parts[1]] = verifUnchunk(r, body)
+		f.Puts++
 		w.Header().Set("ETag", `"verif"`)
 		w.WriteHeader(http.StatusOK)
 		return
